@@ -48,7 +48,8 @@ func (c04) RaceCases(tier string) int {
 }
 func (c04) Floor(tier string) int { return 1500 }
 
-var c04Keys = []string{"a", "b", "c", "d", "x", "y", "k", ""}
+// (keys that look like patterns are keys: the entries of b go to the entries of a with the SAME key)
+var c04Keys = []string{"a", "b", "c", "d", "x", "y", "k", "", "a*", "*", "?", "ab"}
 
 func c04Map(r *rand.Rand, depth int) *ref.V {
 	p := gen.Default()
@@ -117,7 +118,7 @@ func c04Derive(r *rand.Rand, a *ref.V, depth int) *ref.V {
 	r.Shuffle(len(keep), func(i, j int) { keep[i], keep[j] = keep[j], keep[i] })
 	b.M = keep
 	for i := 0; i < r.IntN(3); i++ {
-		k := []string{"n1", "n2", "zz"}[r.IntN(3)]
+		k := []string{"n1", "n2", "zz", "n*", "*"}[r.IntN(5)]
 		if _, dup := b.Get(k); !dup {
 			pos := r.IntN(len(b.M) + 1)
 			b.M = append(b.M[:pos:pos], append([]ref.KV{{K: k, V: gen.SimpleValue(r, 2)}}, b.M[pos:]...)...)
